@@ -42,7 +42,20 @@ def program_cases(rng, n):
         d = rng.choice([lim - 1, lim, -lim, -lim - 1, 0, -1, 1, rng.randrange(-lim - 3, lim + 3)])
         pre = filler(rng, rng.randrange(0, 6))
         npre = sum(dict(FILL)[t] for t in pre)
-        form = rng.choice(["label", "pc", "pc-after-data", "number", "equ-pc", "set-alias"])
+        form = rng.choice(["label", "pc", "pc-after-data", "number", "equ-pc", "set-alias", "in-macro"])
+        if form == "in-macro" and d >= 0:
+            # the instruction is the expansion of a macro call that is the first thing after an .org (or a label, or data)
+            gap = rng.choice([0, 3, 64])
+            ctx = rng.choice(["org", "label", "data"])
+            body = filler(rng, d)
+            at = npre + (gap if ctx == "org" else 1 if ctx == "data" else 0)
+            lines = [".macro jumpit", "  %s tgt" % op, ".endm"] + pre
+            lines += {"org": [".org %d" % at], "label": ["before_it:"], "data": ["  .dw 7"]}[ctx]
+            if ctx == "org" and gap == 0:
+                lines.pop()
+            lines += ["  jumpit"] + body + ["tgt: nop"]
+            cases.append(("\n".join(lines) + "\n", at, word_of(op, d)))
+            continue
         if form in ("equ-pc", "set-alias"):
             # the target goes through an .equ alias whose value depends on WHERE (pc) or WHEN (a .set variable) it is read, and
             # which has been read once before, elsewhere: every use evaluates the definition afresh
